@@ -93,9 +93,10 @@ def build(variant="plain", quiet=True):
     except OSError:
         shutil.rmtree(final_tmp, ignore_errors=True)  # somebody else won the race
     # drop builds of other source hashes (disk is limited)
-    for d in os.listdir(CACHE):
-        if d != hsh and not d.startswith(hsh):
-            shutil.rmtree(os.path.join(CACHE, d), ignore_errors=True)
+    others = sorted((d for d in os.listdir(CACHE) if not d.startswith(hsh)),
+                    key=lambda d: os.path.getmtime(os.path.join(CACHE, d)), reverse=True)
+    for d in others[6:]:  # keep a few recent builds: scratch worktrees are checked concurrently
+        shutil.rmtree(os.path.join(CACHE, d), ignore_errors=True)
     if not quiet:
         print(f"built {variant} extension from working tree -> {out}")
     return out
